@@ -32,8 +32,39 @@ type Entity struct {
 	Locals []Local `json:"locals"`
 }
 
+// Layout is how the entities are laid out as text (Layouts of TranslateSrc.tla).
+type Layout struct {
+	ID       string `json:"id"`
+	EOL      string `json:"eol"`    // "lf" | "crlf"
+	Join     string `json:"join"`   // "line" | "pair" | "same"
+	Indent   string `json:"indent"` // "none" | "dec" | "alt"
+	Comments bool   `json:"comments"`
+	Final    bool   `json:"final"`
+}
+
+// Plain is the layout of a source without a layout dimension.
+var Plain = Layout{ID: "plain", EOL: "lf", Join: "line", Indent: "none", Final: true}
+
+// StrEnt is a string constant of the source with the value it must have in the module.
+type StrEnt struct {
+	K   string   `json:"k"`
+	Key string   `json:"key"`
+	Val []string `json:"val"`
+}
+
 // Module is the abstract module of an "ok" outcome.
 type Module struct {
+	// string entities: [string id, line ending of a raw line break in it]
+	Asms       [][]string `json:"asms"`
+	Srcfile    []string   `json:"srcfile"`
+	Triple     []string   `json:"triple"`
+	Datalayout []string   `json:"datalayout"`
+	Strs       []StrEnt   `json:"strs"`
+	// what the real module holds (filled by trcheck.Order, not part of the vectors)
+	RealAsms                                []string          `json:"-"`
+	RealSrcfile, RealTriple, RealDatalayout string            `json:"-"`
+	RealStrs                                map[string]string `json:"-"`
+
 	Types   []string `json:"types"`
 	Comdats []string `json:"comdats"`
 	Globals []string `json:"globals"`
@@ -57,6 +88,7 @@ type Outcome struct {
 // Vector is one line of vectors.ndjson.
 type Vector struct {
 	Src   []Entity   `json:"src"`
+	Lay   Layout     `json:"lay"`
 	Want  Outcome    `json:"want"`
 	Got   Outcome    `json:"got"`
 	Picks [][]string `json:"picks"`
@@ -84,6 +116,7 @@ type renderer struct {
 	keys     []string
 	visiting map[*Entity]bool
 	cur      *Entity // function being rendered
+	lay      Layout
 }
 
 // direct reports whether the global's only initialiser reference is rendered as a plain
@@ -155,7 +188,12 @@ func ident(n string) string {
 	return `"` + n + `"`
 }
 
-func tyName(n string) string { return "%" + ident(n) }
+func tyName(n string) string {
+	if n == "qz10" {
+		return `%"010"` // a name: not the type %10 / %"10"
+	}
+	return "%" + ident(n)
+}
 
 // comdatName spells a comdat name ($10 does not lex: a name starting with a digit is quoted).
 func comdatName(n string) string {
@@ -183,6 +221,9 @@ func gname(key string) string {
 	if key == "q0" {
 		return `@"0"` // the quoted numeral: a name, not the ID @0
 	}
+	if key == "qe" {
+		return `@""` // the empty quoted name: nothing has it
+	}
 	if strings.HasPrefix(key, "@") {
 		return key
 	}
@@ -203,6 +244,9 @@ func lname(n string) string {
 	if n == "q0" {
 		return `%"0"`
 	}
+	if n == "qe" {
+		return `%""`
+	}
 	if n == "n0" {
 		return "%0" // the bare numeral: an ID
 	}
@@ -213,12 +257,18 @@ func mdID(n string) string {
 	if n == "zz" {
 		return "!99"
 	}
+	if n == "zw" {
+		return "!99999999999999999999"
+	}
 	return "!" + n
 }
 
 func attrID(n string) string {
 	if n == "zz" {
 		return "#99"
+	}
+	if n == "zw" {
+		return "#99999999999999999999"
 	}
 	return "#" + n
 }
@@ -255,6 +305,9 @@ func (r *renderer) funcSig(e *Entity) (ret string, params []string) {
 	if t := refsOf(e, "ty.sig"); len(t) > 0 {
 		ret = tyName(t[0].To) + "*"
 		params = append(params, tyName(t[0].To)+"*")
+	}
+	for _, t := range refsOf(e, "ty.pattr") {
+		params = append(params, tyName(t.To)+"*")
 	}
 	for _, l := range e.Locals {
 		if l.LK == "param" {
@@ -304,14 +357,115 @@ func (r *renderer) mdAttach(refs []Ref, sep string) string {
 	return sb.String()
 }
 
-// Render renders the source to LLVM assembly.
-func Render(src []Entity) string {
-	r := &renderer{src: src, keys: Keys(src), visiting: map[*Entity]bool{}}
+// rawBreak stands for a RAW line break inside a string literal of a rendered entity: it becomes the
+// line ending of the layout.
+const rawBreak = "\x01"
+
+// StrText is the source text (between the quotes) of abstract string id for an entity of kind k.
+func StrText(k, id string) string {
+	switch id {
+	case "ml":
+		return "first" + rawBreak + "second"
+	case "esc":
+		return `a\22b;c\0D\0Ad`
+	}
+	if k == "datalayout" {
+		return "e"
+	}
+	return "one"
+}
+
+// StrValue is the value the string [id, eol] has in the module.
+func StrValue(k string, v []string) string {
+	if len(v) != 2 || v[0] == "" {
+		return ""
+	}
+	switch v[0] {
+	case "ml":
+		if v[1] == "crlf" {
+			return "first\r\nsecond"
+		}
+		return "first\nsecond"
+	case "esc":
+		return "a\"b;c\r\nd"
+	}
+	if k == "datalayout" {
+		return "e"
+	}
+	return "one"
+}
+
+// Render renders the source to LLVM assembly in the plain layout.
+func Render(src []Entity) string { return RenderLay(src, Plain) }
+
+// RenderLay renders the source to LLVM assembly laid out as lay says.
+func RenderLay(src []Entity, lay Layout) string {
+	if lay.ID == "" {
+		lay = Plain
+	}
+	r := &renderer{src: src, keys: Keys(src), visiting: map[*Entity]bool{}, lay: lay}
+	n := len(src)
 	var sb strings.Builder
 	for i := range src {
+		var c strings.Builder
+		r.entity(&c, i)
+		chunk := strings.TrimSuffix(c.String(), "\n")
+		if lay.Join == "same" {
+			chunk = strings.ReplaceAll(chunk, "\n", " ")
+		}
+		switch lay.Indent {
+		case "dec":
+			chunk = strings.Repeat(" ", n-(i+1)) + chunk
+		case "alt":
+			if (i+1)%2 == 0 {
+				chunk = "\t " + chunk
+			}
+		}
+		if lay.Comments && lay.Join == "line" {
+			// text that looks like definitions, an unbalanced quote
+			fmt.Fprintf(&sb, "; @c%d = global i32 0 \" define void @c%d() {\n", i, i)
+			chunk += " ; } \"trailing"
+		}
+		sb.WriteString(chunk)
+		switch {
+		case lay.Join == "same" || lay.Join == "pair" && i%2 == 0 && i+1 < n:
+			sb.WriteString(" ")
+		default:
+			sb.WriteString("\n")
+		}
+	}
+	text := sb.String()
+	if lay.Join == "same" {
+		text = strings.TrimSuffix(text, " ") + "\n"
+	}
+	if !lay.Final {
+		text = strings.TrimSuffix(text, "\n")
+	}
+	eol := "\n"
+	if lay.EOL == "crlf" {
+		eol = "\r\n"
+	}
+	text = strings.ReplaceAll(text, "\n", eol)
+	return strings.ReplaceAll(text, rawBreak, eol)
+}
+
+// entity renders entity i (plain layout, lines ended by "\n").
+func (r *renderer) entity(sbp *strings.Builder, i int) {
+	src := r.src
+	var sb strings.Builder
+	defer func() { sbp.WriteString(sb.String()) }()
+	{
 		e := &src[i]
 		key := r.keys[i]
 		switch e.K {
+		case "asm":
+			fmt.Fprintf(&sb, "module asm \"%s\"\n", StrText(e.K, e.Body))
+		case "srcfile":
+			fmt.Fprintf(&sb, "source_filename = \"%s\"\n", StrText(e.K, e.Body))
+		case "triple":
+			fmt.Fprintf(&sb, "target triple = \"%s\"\n", StrText(e.K, e.Body))
+		case "datalayout":
+			fmt.Fprintf(&sb, "target datalayout = \"%s\"\n", StrText(e.K, e.Body))
 		case "type":
 			switch e.Body {
 			case "opaque":
@@ -328,6 +482,14 @@ func Render(src []Entity) string {
 		case "comdat":
 			fmt.Fprintf(&sb, "$%s = comdat any\n", comdatName(e.N))
 		case "global":
+			if e.Body == "cstr" {
+				k := 12
+				if r.lay.EOL == "crlf" {
+					k = 13
+				}
+				fmt.Fprintf(&sb, "%s = constant [%d x i8] c\"%s\"\n", gname(key), k, StrText("global", "ml"))
+				return
+			}
 			ct := r.contentType(e)
 			var init string
 			if tc := refsOf(e, "ty.const"); len(tc) > 0 {
@@ -387,9 +549,13 @@ func Render(src []Entity) string {
 			}
 			fmt.Fprintf(&sb, "!%s = !{%s}\n", e.N, strings.Join(ns, ", "))
 		case "md":
+			if e.Body == "mdstr" {
+				fmt.Fprintf(&sb, "%s = !{!\"%s\"}\n", mdID(e.N), StrText("md", "ml"))
+				return
+			}
 			if e.Body == "diexpr" {
 				fmt.Fprintf(&sb, "%s = !DIExpression(DW_OP_deref)\n", mdID(e.N))
-				continue
+				return
 			}
 			if e.Body == "diarr" {
 				fs := []string{"tag: DW_TAG_array_type"}
@@ -402,7 +568,7 @@ func Render(src []Entity) string {
 					}
 				}
 				fmt.Fprintf(&sb, "%s = !DICompositeType(%s)\n", mdID(e.N), strings.Join(fs, ", "))
-				continue
+				return
 			}
 			if e.Body == "di" {
 				fs := []string{"tag: DW_TAG_pointer_type"}
@@ -418,7 +584,7 @@ func Render(src []Entity) string {
 					fs = append(fs, "baseType: null")
 				}
 				fmt.Fprintf(&sb, "%s = !DIDerivedType(%s)\n", mdID(e.N), strings.Join(fs, ", "))
-				continue
+				return
 			}
 			var fs []string
 			for _, x := range e.Refs {
@@ -429,6 +595,8 @@ func Render(src []Entity) string {
 					fs = append(fs, fmt.Sprintf("i8* blockaddress(%s, %s)", gname(x.To), lname(x.Aux)))
 				case "g.mdvalue":
 					fs = append(fs, r.ptrType(x.To)+" "+gname(x.To))
+				case "l.mdlocal":
+					fs = append(fs, "i32 "+lname(x.To))
 				}
 			}
 			fs = append(fs, "i32 7")
@@ -438,7 +606,9 @@ func Render(src []Entity) string {
 			}
 			fmt.Fprintf(&sb, "%s = %s!{%s}\n", mdID(e.N), d, strings.Join(fs, ", "))
 		case "ulo":
-			if e.Refs[0].RK == "l.baddr" {
+			if e.Refs[0].RK == "l.ulolocal" {
+				fmt.Fprintf(&sb, "uselistorder i32 %s, { 1, 0 }\n", lname(e.Refs[0].To))
+			} else if e.Refs[0].RK == "l.baddr" {
 				fmt.Fprintf(&sb, "uselistorder i8* blockaddress(%s, %s), { 1, 0 }\n", gname(e.Refs[0].To), lname(e.Refs[0].Aux))
 			} else {
 				fmt.Fprintf(&sb, "uselistorder %s %s, { 1, 0 }\n", r.ptrType(e.Refs[0].To), gname(e.Refs[0].To))
@@ -447,7 +617,6 @@ func Render(src []Entity) string {
 			fmt.Fprintf(&sb, "uselistorder_bb %s, %s, { 1, 0 }\n", gname(e.Refs[0].To), lname(e.Refs[0].Aux))
 		}
 	}
-	return sb.String()
 }
 
 func (r *renderer) renderFunc(sb *strings.Builder, e *Entity, key string) {
@@ -462,6 +631,13 @@ func (r *renderer) renderFunc(sb *strings.Builder, e *Entity, key string) {
 			params = append(params, tyName(t[0].To)+"* %sigarg")
 		}
 	}
+	for k, t := range refsOf(e, "ty.pattr") {
+		p := tyName(t.To) + "* byval(" + tyName(t.To) + ")"
+		if e.Body != "decl" {
+			p += fmt.Sprintf(" %%byvalarg%d", k)
+		}
+		params = append(params, p)
+	}
 	for _, l := range e.Locals {
 		if l.LK == "param" {
 			if l.N == "" {
@@ -472,6 +648,9 @@ func (r *renderer) renderFunc(sb *strings.Builder, e *Entity, key string) {
 		}
 	}
 	var tail strings.Builder
+	for _, x := range refsOf(e, "ty.fattr") {
+		tail.WriteString(" preallocated(" + tyName(x.To) + ")")
+	}
 	for _, x := range refsOf(e, "a.func") {
 		tail.WriteString(" " + attrID(x.To))
 	}
@@ -623,6 +802,32 @@ func (r *renderer) renderFunc(sb *strings.Builder, e *Entity, key string) {
 				curTerm = retInst
 			}
 			sb.WriteString("  " + r.renderInst(&l) + "\n")
+		case "ulo":
+			// a function-level use-list order directive: after the last block; the indexes reverse the use list
+			flush()
+			open = false
+			v := "zz"
+			for _, x := range l.Refs {
+				if x.RK == "l.fulo" {
+					v = x.To
+				}
+			}
+			uses := 0
+			for _, o := range e.Locals {
+				for _, x := range o.Refs {
+					if RefClass(x.RK) == "local" && x.RK != "l.fulo" && (x.To == v || x.Aux == v) {
+						uses++
+					}
+				}
+			}
+			if uses < 2 {
+				uses = 2
+			}
+			var idx []string
+			for k := uses - 1; k >= 0; k-- {
+				idx = append(idx, fmt.Sprint(k))
+			}
+			fmt.Fprintf(sb, "  uselistorder %s %s, { %s }\n", r.localType(v), lname(v), strings.Join(idx, ", "))
 		}
 	}
 	flush()
@@ -707,7 +912,7 @@ func (r *renderer) renderInst(l *Local) string {
 // RefClass names the index a reference site is looked up in (RefClass of TranslateSrc.tla).
 func RefClass(rk string) string {
 	switch rk {
-	case "ty.alias", "ty.field", "ty.global", "ty.sig", "ty.inst", "ty.const":
+	case "ty.alias", "ty.field", "ty.global", "ty.sig", "ty.inst", "ty.const", "ty.fattr", "ty.pattr":
 		return "type"
 	case "g.init", "g.aliasee", "g.resolver", "g.operand", "g.callee", "g.personality", "g.mdvalue", "g.ulo", "g.cmp":
 		return "glob"
@@ -717,7 +922,7 @@ func RefClass(rk string) string {
 		return "attr"
 	case "m.attach", "m.tuple", "m.named", "m.difield":
 		return "md"
-	case "l.operand", "l.target", "l.phipred", "l.unwind", "l.within":
+	case "l.operand", "l.target", "l.phipred", "l.unwind", "l.within", "l.fulo", "l.mdlocal", "l.ulolocal":
 		return "local"
 	case "l.baddr", "l.ulobb":
 		return "block"
@@ -728,10 +933,17 @@ func RefClass(rk string) string {
 // SrcKey is a canonical string for a source (used to de-duplicate vectors).
 func SrcKey(src []Entity) string { return Render(src) }
 
+// VecKey is a canonical string for a vector's input (source and layout).
+func VecKey(v Vector) string { return RenderLay(v.Src, v.Lay) }
+
 // FaultSites lists "rk" values of references whose target is the undefined name.
 func FaultSites(src []Entity) []string {
 	var out []string
 	add := func(x Ref) {
+		if x.RK == "l.mdlocal" || x.RK == "l.ulolocal" {
+			out = append(out, x.RK+"@local-at-module-level")
+			return
+		}
 		if x.To == "zz" {
 			out = append(out, x.RK)
 		}
@@ -743,6 +955,19 @@ func FaultSites(src []Entity) []string {
 		}
 		if x.To == "n0" {
 			out = append(out, x.RK+"@bare-numeral")
+		}
+		if x.To == "qe" {
+			out = append(out, x.RK+"@empty-quoted")
+		}
+		if x.To == "zw" {
+			out = append(out, x.RK+"@id-wider-than-64-bits")
+		}
+		if x.To == "qz10" {
+			out = append(out, x.RK+"@zero-padded-quoted-numeral")
+		}
+
+		if x.Aux == "qe" {
+			out = append(out, x.RK+".aux@empty-quoted")
 		}
 		if x.Aux == "n0" {
 			out = append(out, x.RK+".aux@bare-numeral")
@@ -777,7 +1002,7 @@ func DanglingSites(src []Entity) []string {
 	}
 	var out []string
 	add := func(x Ref) {
-		if x.To == "zz" || x.To == "q0" {
+		if x.To == "zz" || x.To == "q0" || x.To == "qe" || x.To == "zw" || x.To == "qz10" {
 			return
 		}
 		c := RefClass(x.RK)
@@ -812,6 +1037,67 @@ func DanglingSites(src []Entity) []string {
 	return out
 }
 
+// ForeignSites lists "rk" of references to a local / block that the function in question does not
+// define although another function does (scope faults).
+func ForeignSites(src []Entity) []string {
+	keys := Keys(src)
+	localsOf := map[string]map[string]bool{}
+	blocksOf := map[string]map[string]bool{}
+	for i, e := range src {
+		if e.K != "func" {
+			continue
+		}
+		ls, bs := map[string]bool{}, map[string]bool{}
+		for _, l := range e.Locals {
+			if l.N != "" {
+				ls[l.N] = true
+				if l.LK == "block" {
+					bs[l.N] = true
+				}
+			}
+		}
+		localsOf[keys[i]], blocksOf[keys[i]] = ls, bs
+	}
+	elsewhere := func(m map[string]map[string]bool, self, name string) bool {
+		for k, s := range m {
+			if k != self && s[name] {
+				return true
+			}
+		}
+		return false
+	}
+	var out []string
+	chk := func(fn string, x Ref) {
+		switch RefClass(x.RK) {
+		case "local":
+			if x.RK == "l.mdlocal" || x.RK == "l.ulolocal" {
+				return // named by FaultSites
+			}
+			for _, n := range []string{x.To, x.Aux} {
+				if n != "" && !localsOf[fn][n] && elsewhere(localsOf, fn, n) {
+					out = append(out, x.RK)
+				}
+			}
+		case "block":
+			if bs, ok := blocksOf[x.To]; ok && !bs[x.Aux] && elsewhere(blocksOf, x.To, x.Aux) {
+				out = append(out, x.RK+".aux")
+			}
+		}
+	}
+	for i, e := range src {
+		for _, x := range e.Refs {
+			chk("", x)
+		}
+		for _, l := range e.Locals {
+			for _, x := range l.Refs {
+				chk(keys[i], x)
+			}
+		}
+	}
+	sort.Strings(out)
+	return out
+}
+
 // DupSites lists "kind" of entities / locals defined twice.
 func DupSites(src []Entity) []string {
 	var out []string
@@ -822,7 +1108,7 @@ func DupSites(src []Entity) []string {
 		if isGlob(e.K) {
 			cls = "glob"
 		}
-		if cls == "attr" || cls == "nmd" || cls == "ulo" || cls == "ulobb" {
+		if cls == "attr" || cls == "nmd" || cls == "ulo" || cls == "ulobb" || cls == "asm" || cls == "srcfile" || cls == "triple" || cls == "datalayout" {
 			continue
 		}
 		k := cls + "\x00" + keys[i]
